@@ -241,6 +241,12 @@ func runC14(c *rt.Ctx) {
 				c.Trace(1)
 				c.Trans(int64(len(r.S.Trace)))
 				outs[strings.Join(r.Trans, "||")] = true
+				if dp := vsync.TakeDoublePuts(); len(dp) > 0 && !violated {
+					scc := sc
+					scc.Choices = r.S.Choices()
+					violated = true
+					c.Violation(fmt.Sprintf("C14 pooled-object-put-twice cfg=%s", cfgClass(sc.Cfg)), "a pooled object was returned to its pool while already in it; two connections will be handed the same object: "+dp[0], scc)
+				}
 				for ti := range sc.Threads {
 					if !sameTranscript(ref[ti], r.Trans[ti]) {
 						scc := sc
